@@ -1127,8 +1127,8 @@ def run_threads(ctx, reload_flag):
                 continue            # symmetric requesters
             exh.append((conf, [[(1, 1, 1)] for _ in range(m)], [], list(seq), 'exhaustive'))
     todo += exh
-    todo += link_family(rng, ctx.n(40, 400))
-    todo += sqlite_family(rng, ctx.n(50, 400))
+    todo += link_family(rng, ctx.n(40, 300))
+    todo += sqlite_family(rng, ctx.n(50, 250))
 
     terms, descr = [], []
     reported = set()
